@@ -89,16 +89,11 @@ def run(ck):
     h = vlib.build_harness("conc")
     quick = ck.tier == "quick"
     # the model must be able to fail: a blocking operation without cancellation path breaks liveness
-    nt = vlib.run_tlc("ShCancel", "ShCancel.nofifo.cfg", workers=4, timeout=900, tags=())
-    ck.add_tlc(nt)
-    if nt.ok or "Live" not in (nt.violation or ""):
-        raise vlib.Inconclusive("self-test: FifoCancellable=FALSE did not violate the liveness property")
-    if not quick:
-        dv = vlib.run_tlc("ShCancel", "ShCancel.dev.cfg", workers=4, timeout=900, tags=())
-        ck.add_tlc(dv)
-        if not dv.ok:
-            raise vlib.Inconclusive("self-test: the defect model is stuck outside the Trigger class:\n" + (dv.violation or ""))
-    ck.notes["selftest_liveness_fails_without_fifo_cancel_path"] = True
+    # (self-test; runs in the background while the contract model is checked and the shapes are run)
+    from concurrent.futures import ThreadPoolExecutor
+    pool = ThreadPoolExecutor(max_workers=2)
+    f_nt = pool.submit(vlib.run_tlc, "ShCancel", "ShCancel.nofifo.cfg", workers=2, timeout=900, tags=())
+    f_dv = None if quick else pool.submit(vlib.run_tlc, "ShCancel", "ShCancel.dev.cfg", workers=2, timeout=900, tags=())
     t = vlib.run_tlc("ShCancel", "ShCancel.%s.cfg" % ck.tier, workers=4 if quick else 8, timeout=1500, tags=("SHAPE",))
     ck.add_tlc(t)
     if not t.ok:
@@ -115,6 +110,16 @@ def run(ck):
         for run_ in r["runs"]:
             pairs.append((s, run_))
     bad = validate_traces(ck, pairs)
+    nt = f_nt.result()
+    ck.add_tlc(nt)
+    if nt.ok or "Live" not in (nt.violation or ""):
+        raise vlib.Inconclusive("self-test: FifoCancellable=FALSE did not violate the liveness property")
+    if f_dv is not None:
+        dv = f_dv.result()
+        ck.add_tlc(dv)
+        if not dv.ok:
+            raise vlib.Inconclusive("self-test: the defect model is stuck outside the Trigger class:\n" + (dv.violation or ""))
+    ck.notes["selftest_liveness_fails_without_fifo_cancel_path"] = True
     for s, run_ in pairs:
         judge(ck, s, run_, stats)
     ck.notes["internal_trace_rejections"] = len(bad)
